@@ -28,7 +28,7 @@ from rules_writes import collect_writes
 
 EXPLANATION = ("frame typing of the rotation/translation update (composition order, anchoring), structural delegation of all rotate_from_* forms to "
                "rotate(), validate-before-mutate ordering including in-place writes through aliases of the pose arrays, and who-may-write/pairing of "
-               "_position/_orientation. Decides the algebra and ordering of pose updates; the integer padding arithmetic is not decided.")
+               "_position/_orientation. Decides the algebra and ordering of pose updates; the integer padding arithmetic is decided on a finite case abstraction (LEN-PATH: lengths and per-row recipes).")
 
 T = "magpylib._src.obj_classes.class_BaseTransform"
 POSE_WRITERS = {
@@ -627,7 +627,7 @@ MANIFEST = {
             "anchor (frame typing), all rotate_from_* forms delegate to rotate() with anchor/start/degrees forwarded, every validation precedes the first "
             "write to the pose including in-place writes through aliases (a rejected call changes nothing), and position/orientation are only ever "
             "written together by a fixed set of functions. The integer padding arithmetic (path_padding_param) needs linear arithmetic over unbounded "
-            "path lengths and is not decided. Also decided: both pose paths come from one padding computation, every path extension is edge padding, and only the updated object's paths are written in place (alias analysis). Round 3: rotate(None) is the single identity rotation (rank of the quaternion on the None path, P7) and each rotate_from_* hands its own unmodified parameters to the SciPy constructor (P2). Rounds 4-5: validators on the way to the SciPy constructor hand the value back unchanged (P2), no read-only view becomes a path (P8), the constructor pads for both orderings of the path lengths (P6b).",
+            "path lengths and was declared undecided at first (decided since round 6 on a finite case abstraction, see the end of this text). Also decided: both pose paths come from one padding computation, every path extension is edge padding, and only the updated object's paths are written in place (alias analysis). Round 3: rotate(None) is the single identity rotation (rank of the quaternion on the None path, P7) and each rotate_from_* hands its own unmodified parameters to the SciPy constructor (P2). Rounds 4-5: validators on the way to the SciPy constructor hand the value back unchanged (P2), no read-only view becomes a path (P8), the constructor pads for both orderings of the path lengths (P6b). Rounds 6-7: the integer padding arithmetic IS decided on a finite abstraction (LEN-PATH, P9): for 864 cases of path length / input length / start class / scalar-vs-vector / anchor form the evaluator checks slice-store lengths, rotation stack lengths and the documented result length, and compares the symbolic recipe of every resulting row with the reference tree (P9b); size tests are dominated by the rank test (S20), input guards compare exactly (S22).",
     "design_ref": "DESIGN.md §3 C09",
     "note": "Trusted: FRAME interpreter + declarations; summaries of the validators (return their argument) and of path_padding (returns aliases of the pose paths).",
     "technique": "static analysis: frame-type abstract interpretation, structural delegation check, taint/ordering dataflow, who-may-write query",
